@@ -330,7 +330,27 @@ def fam_store(ctx):
     ctx.cov.setdefault("deviation_switches", {}).update(dict(ctx.par(one, sws, workers=3)))
 
 
-FAMILIES = {"store": fam_store, "crash_clean": fam_crash_clean, "conc": fam_conc, "wm": fam_wm, "txn": fam_txn, "crash": fam_crash, "crash_torn": lambda ctx: fam_crash(ctx, torn=True)}
+def fam_wal(ctx):
+    """WalLog.tla: WAL.Read over every log of a bounded instance cut at every byte: no error, exactly the
+    whole records; each deviation switch must be refuted."""
+    def cfg(hdr, body, recs, on=()):
+        kw = dict(HDR=hdr, MAXBODY=body, MAXRECS=recs)
+        for sname in ("BugTornFatal", "BugCompareWhole", "BugHeaderOnly"):
+            kw[sname] = T if sname in on else F
+        return tlc.fill("MC_WalLog.cfg.tmpl", **kw)
+    bnd = (2, 3, 3) if ctx.quick else (3, 4, 4)
+    r = ctx.model_check("WalLog", cfg(*bnd), timeout=1800)
+    expect_ok(ctx, r, "WalLog %s" % (bnd,))
+    ctx.cov.setdefault("model_bounds", {})["WalLog(header bytes,max body,max records)"] = [bnd]
+
+    def one(sname):
+        rr = ctx.model_check("WalLog", cfg(2, 3, 3, on=(sname,)), timeout=600, expect_violation=True, workers=2)
+        expect_violation(ctx, rr, sname)
+        return sname, "ReadOk"
+    ctx.cov.setdefault("deviation_switches", {}).update(dict(ctx.par(one, ["BugTornFatal", "BugCompareWhole", "BugHeaderOnly"], workers=3)))
+
+
+FAMILIES = {"wal": fam_wal, "store": fam_store, "crash_clean": fam_crash_clean, "conc": fam_conc, "wm": fam_wm, "txn": fam_txn, "crash": fam_crash, "crash_torn": lambda ctx: fam_crash(ctx, torn=True)}
 
 
 def run_family(ctx, name):
